@@ -7,7 +7,8 @@
 (* options): building such a chain must fail.                                 *)
 EXTENDS Integers, Sequences, FiniteSets, TLC
 
-Valid == {"P1", "P2", "P3", "AUTH", "SIZE", "HDR", "LOG", "GZIP", "RID"}
+\* SIZEL: a second, laxer size_limit (1000 bytes: it lets the "big" body through, the stricter SIZE behind it must still refuse)
+Valid == {"P1", "P2", "P3", "AUTH", "SIZE", "SIZEL", "HDR", "LOG", "GZIP", "RID"}
 Invalid == {"NONAME!", "AUTH_nokey!", "AUTH_numkey!", "SIZE_neg!", "SIZE_zero!", "SIZE_str!",
             "GZIP_nolevel!", "GZIP_level99!", "GZIP_types!", "HDR_badval!"}
 Probes == {"P1", "P2", "P3"}
